@@ -575,16 +575,24 @@ func fbb.(*Session).readCompressed(s, rw, p) (err)
   call bufio.(*Reader).ReadString#1 set gOffsetField := $r0
   call strconv.Atoi requires offset-field: same($0, gOffsetField[0:len(gOffsetField)-1])
   call strconv.Atoi set gOffsetValue := $r0
+  call strconv.Atoi set gOffsetErr := $r1
   # ... and a well-formed header is not refused: the mismatch errors are returned only for a real mismatch
   at return#7 requires refuses-only-bad-length [C01 C05]: gHdrLenByte != gTitleBytes + gOffsetBytes
   at return#9 requires refuses-only-bad-offset [C01 C05]: gOffsetValue != p.offset
-  at return requires verdict-block: $r0 == nil ==> ourChecksum == 0 && p.compressedSize == gPayloadBytes && gHdrLenByte == gTitleBytes + gOffsetBytes && gOffsetValue == p.offset
+  at return requires verdict-block: $r0 == nil ==> ourChecksum == 0 && p.compressedSize == gPayloadBytes && gHdrLenByte == gTitleBytes + gOffsetBytes && gOffsetValue == p.offset && gOffsetErr == nil
   at return requires every-byte-kept: $r0 == nil ==> buf.len == gPayloadBytes
   ensures payload: err == nil ==> len(p.compressedData) == p.compressedSize
   loop 0 invariant count: received == buf.len && buf.len == gPayloadBytes && buf.len >= 0 && 0 <= ourChecksum && ourChecksum < 256
   loop 1 invariant count: received == buf.len && buf.len == gPayloadBytes && buf.len >= 0 && 0 <= ourChecksum && ourChecksum < 256
   # a data block carries as many bytes as its length byte says, 0 meaning 256 (any legal block size is accepted)
   call bufio.(*Reader).ReadByte#3 set gBlockLenByte := $r0
+  # ... exactly that many: the next frame marker is read only after the block is complete
+  call bufio.(*Reader).ReadByte#3 set gBlockBytes := 0
+  call bufio.(*Reader).ReadByte#3 set gInBlock := true
+  call bufio.(*Reader).ReadByte#4 set gBlockBytes := gBlockBytes + ite($r1 == nil, 1, 0)
+  call bufio.(*Reader).ReadByte#2 requires previous-block-complete [C05 C01]: gInBlock ==> gBlockBytes == ite(gBlockLenByte == 0, 256, gBlockLenByte)
+  loop 1 invariant block-bytes [C05 C01]: gInBlock && gBlockBytes == i && 0 <= i && i <= length
+  loop 0 invariant between-blocks [C05 C01]: gInBlock ==> gBlockBytes == ite(gBlockLenByte == 0, 256, gBlockLenByte)
   loop 1 invariant block-length [C05 C01]: length == ite(gBlockLenByte == 0, 256, gBlockLenByte)
 
 # writeCompressed (C01/C05 frame-emit, C02 sent-implies-written, C17)
@@ -599,6 +607,9 @@ ghost var gTitleBytes int
 ghost var gOffsetBytes int
 ghost var gOffsetField string
 ghost var gOffsetValue int
+ghost var gOffsetErr error
+ghost var gBlockBytes int
+ghost var gInBlock bool
 ghost var gPayloadSum int
 ghost var gEOTWritten bool
 ghost var gFlushErr error
@@ -701,6 +712,7 @@ func fbb.(*Session).writeProposalsAnswer(s, rw, proposals) (nAccepted, err)
 #   the first error nothing more is processed and the error is returned; a MID is
 #   appended to Received iff its message was processed without error.
 ghost var gLastAnswer ProposalAnswer
+ghost var gAnswered bool
 ghost var gInSum int
 ghost var gXferOK *Proposal
 ghost var gMsg *Message
@@ -726,6 +738,12 @@ func fbb.(*Session).handleInbound(s, rw) (quitReceived, err)
   call fbb.MBoxHandler.ProcessInbound set gFailed := gFailed || $r0 != nil
   at append#1 requires received-iff-processed: gProcessedOK != nil && gProcessedOK == prop && !gFailed
   at return requires error-propagates: gFailed ==> $r1 != nil
+  call fbb.(*Session).writeProposalsAnswer set gFailed := gFailed || $r1 != nil
+  call fbb.(*Session).writeProposalsAnswer set gAnswered := true
+  call fbb.(*Session).writeProposalsAnswer requires block-has-messages [C05]: !s.remoteNoMsgs && len($2) > 0
+  at return requires answered-block-is-fetched [C01 C02]: $r1 == nil && gAnswered ==> $idx2 >= len(proposals)
+  at return#5 requires empty-block-means-no-more-messages [C05]: s.remoteNoMsgs
+  at mapupdate requires pending-message-parsed [C05]: err == nil
   loop 0 invariant proposals: forall k :: 0 <= k && k < len(proposals) ==> proposals[k] != nil && proposals[k].answer == 0 && proposals[k].compressedSize >= 0
   # C05 receive side: the checksum announced after "F> " is compared with the two's complement
   # of the byte sum of the proposal lines received (each with its CR); the block is answered
@@ -770,6 +788,7 @@ func fbb.(*Session).sendOutbound(s, rw, outbound) (sent, err)
   call fbb.(*Session).writeCompressed requires accepted: $2 == prop && prop.answer == '+'
   call fbb.(*Session).writeCompressed set gXferProp := $2
   call fbb.(*Session).writeCompressed set gXferErr := $r0
+  at mapupdate#0 requires pending-message-parsed [C05]: err == nil
   at mapupdate#1 requires rejected: same($1, prop.mid) && prop.answer == '-' && $2
   at mapupdate#2 requires transferred: same($1, prop.mid) && prop.answer == '+' && !$2 && gXferProp == prop && gXferErr == nil
   loop 0 invariant block-size: len(outbound) <= 5 && checksum == gWireSum && (forall k :: 0 <= k && k < len(outbound) ==> outbound[k] != nil && Complete(outbound[k])) && sent != nil
@@ -799,6 +818,8 @@ func fbb.(*Session).handleOutbound(s, rw) (quitSent, err)
   call fbb.MBoxHandler.SetSent#1 requires confirm-before-sent: ($2 || gConfirmed) && same($1, mid) && $2 == rej
   at append requires sent-stats: gConfirmed && !rej && len($1) == 1 && same($1[0], mid)
   at return requires quit-iff-fq: $r1 == nil ==> ($r0 <==> (gSentMap == nil && s.remoteNoMsgs))
+  at return requires unconfirmed-block-is-an-error [C02 C01]: gSentMap != nil && !gConfirmed ==> $r1 != nil
+  at return requires quit-only-on-success: $r1 != nil ==> !$r0
   loop 0 invariant handler: s.h != nil && !gConfirmed
   loop 1 invariant handler: s.h != nil && gConfirmed
 
